@@ -316,9 +316,8 @@ func (m *Machine) tryMerge(fr *frame, instr *ssa.If, c *Term) (merged bool) {
 	if !r.ok {
 		return false
 	}
-	if m.mergeFails[instr] >= 3 {
-		return false
-	}
+	// (no give-up counter: whether a region is merged must depend on the current
+	// state only, otherwise a replayed decision prefix would not line up)
 	basePC := m.pc
 	savedPrev := fr.prevBlock
 	defer func() {
